@@ -368,6 +368,41 @@ func runC01History(r *rand.Rand, parentKind string, nops int, h *c01hist) (key, 
 				dirty = dirty[:n-1]
 				model.Pop()
 				h.logf("retire written layer")
+			} else if r.Intn(2) == 0 {
+				// the written layer stays in use while the level below is changed by another path (a sibling wrap of the
+				// same parent, the owner of the outer store): a written layer is an empty overlay, so reads through it
+				// must show those changes
+				for j, m := 0, 1+r.Intn(3); j < m; j++ {
+					k := kg.Key(r)
+					if r.Intn(3) == 0 {
+						_ = below.Delete(k)
+						model.DeleteBelow(k)
+						h.logf("delete-below %x", k)
+					} else {
+						v := []byte(fmt.Sprintf("below%d", r.Intn(1000)))
+						_ = below.Set(k, v)
+						model.SetBelow(k, v)
+						h.logf("set-below %x=%s", k, v)
+					}
+					if n >= 2 {
+						dirty[n-2][string(k)] = true
+					}
+				}
+				h.counts["changes_below_a_written_layer"]++
+				view := model.Top()
+				for _, k := range kg.Pool {
+					got, _ := layers[n-1].Get(k)
+					want, ok := view[string(k)]
+					if (got == nil) != !ok || !bytes.Equal(got, want) {
+						return "written-layer-not-transparent/get", fmt.Sprintf("after Write() of the layer at depth %d and changes to the level below, Get(%x) through the written layer = %s, model %s (present=%v)", n, k, kvmodel.Hex(got), kvmodel.Hex(want), ok)
+					}
+					if has, _ := layers[n-1].Has(k); has != ok {
+						return "written-layer-not-transparent/has", fmt.Sprintf("after Write() of the layer at depth %d and changes to the level below, Has(%x) through the written layer = %v, model %v", n, k, has, ok)
+					}
+				}
+				if k, w := checkIter(layers[n-1], view, nil, nil, true, fmt.Sprintf("written-layer(depth %d)", n)); k != "" {
+					return "written-layer-not-transparent/" + k, w
+				}
 			}
 		case 9: // discard top without writing
 			n := len(layers)
@@ -406,7 +441,7 @@ var c01done int64
 
 func checkC01(r *ev.Run) {
 	n := r.N(20000, 400000)
-	r.Rule("history = parent kind (MemDB | prefix view | IAVL working tree | IAVL with committed base | MemDB with mutation spy) + 30-120 ops (get/has/set/delete/iter/reverse-iter/open-iter-then-write/push/write/discard) over <=12 hot keys from alphabet {00,01,61,62,7f,fe,ff}, nesting <=3, PRNG stream (seed, case). Non-trivial = a Write happened AND (a tombstone shadowed a parent key OR delete-then-reset) AND an iterator range cut through present keys; distinct = digest of the op log.")
+	r.Rule("history = parent kind (MemDB | prefix view | IAVL working tree | IAVL with committed base | MemDB with mutation spy) + 30-120 ops (get/has/set/delete/iter/reverse-iter/open-iter-then-write/push/write/discard/change-the-level-below-a-written-layer) over <=12 hot keys from alphabet {00,01,61,62,7f,fe,ff}, nesting <=3, PRNG stream (seed, case). Non-trivial = a Write happened AND (a tombstone shadowed a parent key OR delete-then-reset) AND an iterator range cut through present keys; distinct = digest of the op log.")
 	r.Assume("layers obey stack discipline (a lower layer is touched again only after the layers above were written or discarded); cachekv memoises parent reads")
 	r.Assume("an iterator opened at step t is expected to yield the overlay as of t (writes while open go to the same layer)")
 	ev.ForEach(n, workers(), func(i int) {
